@@ -176,6 +176,27 @@ def rejected_calls(w, rng):
         for k, vals in enumerate((['Double:' + f64(1.0), 'Double:' + f64(2.0), 'Int32:3'], ['Int32:1', 'Int64:2'], ['UInt32:1', 'UInt64:2'],
                                   ['String:' + S('a'), 'Int32:1'], ['Bool:1', 'Int32:0'])):
             out.append('mkpv $x %s %s %s' % (s_.slot, S('fresh-mixed-%d' % k), lst(vals)))
+    # a data-frame dimension with a frame of another block / no frame at all, through each of the three overloads
+    for a in w.alive('A')[:3]:
+        for d in [x for x in w.alive('D') if x.block != a.block][:1]:
+            for col in ('~', '0', 'n:' + S('c0')):
+                out.append('adim %s frame %s %s' % (a.slot, d.slot, col))
+        out.append('adim %s frame $- ~' % a.slot)
+        for d in w.alive('D', block=a.block)[:1]:
+            out.append('adim %s frame %s n:%s' % (a.slot, d.slot, S('no-such-column')))
+    # values of a uniform but wrong type, of another length than the property has: numbers for a String / Bool property and the reverse
+    for p in w.alive('P')[:4]:
+        dt = getattr(p, 'dtype', None)
+        n = rng.choice([1, 2, 5])
+        if dt in ('String', 'Bool'):
+            out.append('pvalues %s %s' % (p.slot, lst([rng.choice(['Int32:%d', 'UInt64:%d', 'Double:' + f64(2.5) + '%.0d']) % k for k in range(n)]) if False else lst(['Int32:%d' % k for k in range(n)])))
+            out.append('pvalues %s %s' % (p.slot, lst(['Double:' + f64(float(k)) for k in range(n)])))
+            out.append('pvalues %s %s' % (p.slot, lst(['UInt64:%d' % k for k in range(n)])))
+        elif dt is not None:
+            out.append('pvalues %s %s' % (p.slot, lst(['String:' + S('v%d' % k) for k in range(n)])))
+            out.append('pvalues %s %s' % (p.slot, lst(['Bool:%d' % (k % 2) for k in range(n)])))
+            other = 'Double' if dt != 'Double' else 'Int32'
+            out.append('pvalues %s %s' % (p.slot, lst([('Double:' + f64(float(k))) if other == 'Double' else 'Int32:%d' % k for k in range(n)])))
     for t in w.alive(['T', 'M'])[:2]:
         out.append('set %s units %s' % (t.slot, lst([S('m/s')])))
     for p in w.alive('P')[:3]:
